@@ -211,7 +211,7 @@ def obligations(tier, seed):
     quick = tier == "quick"
     obs = []
     exprs = c15.depth1()
-    sample = rnd.sample(exprs, 1500 if quick else len(exprs))
+    sample = rnd.sample(exprs, 500 if quick else len(exprs))
     for i in range(0, len(sample), 50):
         obs.append(Obligation("literal_value/%d" % (i // 50), c15.ob_batch, {"exprs": sample[i:i + 50]}, hard_timeout=1500,
                               sample={"expressions": sample[i:i + 3]}))
@@ -235,7 +235,7 @@ def obligations(tier, seed):
             jobs.append((s2, "format_code:safe=1"))
             jobs.append((s2, "format_code:safe=0,keep_imports=1"))
     rules = [t for t in poolfam.scheduled_rules() if "numpy" not in t and "pandas" not in t]
-    for sk in (rnd.sample(sks, 8) if quick else sks[::3]) + eof:
+    for sk in (rnd.sample(sks, 6) + rnd.sample(eof, 40) if quick else sks[::3] + eof):
         for tr in rules:
             jobs.append((sk, tr))
     for sk, tr in jobs:
